@@ -255,6 +255,24 @@ func c09Collection(r *an.Run) {
 						}
 					}
 				}
+				// or appended, in a loop that appends once for every index before it goes on
+				if !dstOK {
+					for _, ac := range callsInLoop(il.Loop) {
+						if !an.IsCallTo(ac, "builtin:append") || !derivesFrom(ac.Common().Args[1], call) {
+							continue
+						}
+						if _, carried := ac.Common().Args[0].(*ssa.Phi); !carried {
+							continue
+						}
+						ab := ac.Block()
+						reach := an.Reach([]*ssa.BasicBlock{call.Block()}, func(from *ssa.BasicBlock, succ int) bool {
+							return from.Succs[succ] == ab || !il.Loop.Blocks[from.Succs[succ]]
+						})
+						if ab == call.Block() || !reach[il.Loop.Header] {
+							dstOK = true
+						}
+					}
+				}
 				if srcOK && dstOK && il.Start == 0 && il.Step == 1 && il.CoversAll(call, an.ReturnsFailure) == "" {
 					good = true
 				}
